@@ -82,7 +82,7 @@ func main() {
 		cs := gen.PackCases(*seed, *n, []gen.Tmpl{{}, {Opt: true}})
 		for j, c := range cs {
 			fmt.Fprintln(w, c.Sexp())
-			if j == 0 || cs[j-1].Tmpl != c.Tmpl {
+			if j == 0 || &cs[j-1].Rules[len(cs[j-1].Rules)-1] != &c.Rules[len(c.Rules)-1] && cs[j-1].Rules[len(cs[j-1].Rules)-1] != c.Rules[len(c.Rules)-1] {
 				if pw != nil {
 					fmt.Fprintf(pw, "## %s tmpl=%s wf=%v\n%s", c.ID, c.Tmpl.Name(), c.WF, gen.GrammarText(c.Rules))
 				}
